@@ -25,6 +25,10 @@ def run(rep):
     rep.guard(t11, rep, w)
     import c03_progress
     rep.guard(c03_progress.t9, rep, w)
+    rep.guard(t13, rep, w)
+    rep.guard(t14, rep, w)
+    import c13
+    rep.guard(c13.u3, rep, w)     # compile-time code outside the scanner (messages that quote source text) slices strings only at positions the string vouched for
 
 
 def t1(rep, w):
@@ -852,3 +856,124 @@ def t11(rep, w):
             r.check(c01.all_paths_hit(f, d, init), '%s: %s is followed by an initialisation on every path' % (f.path.replace(P, ''), callee_name(t).rsplit('::', 1)[-1]),
                     '%s declares a local (%s) and can return without initialising it: the local stays in the list with no depth, and the next scope end / break / continue of the '
                     'function unwraps it (panic on malformed input)' % (f.path, callee_name(t).rsplit('::', 1)[-1]), f.loc(t.get('sp')))
+
+
+def t13(rep, w):
+    """never panics: a fallible integer conversion (`T::try_from(x)` / `x.try_into()` whose result is unwrapped) in code the compiler runs
+    must be given a value that fits on EVERY path - the paths on which an error has already been reported included, because reporting an
+    error does not end the compilation. (C04 B4 prunes those paths for `as` casts, where a truncated operand only spoils output that is
+    thrown away; a conversion that panics takes the host down instead.) The operand is bounded by the interval interpreter of C04; an
+    operand that is a parameter is bounded at every call site, two levels up."""
+    import c04_narrow as cn
+    r = rep.rule('T13', 'fallible integer conversions reachable from compile() are given operands that fit on every path (error-reported paths included)', floor=0)
+    c = w.yarel
+    cg = w.callgraph()
+    entry = 'yarel::compiler::compile'
+    w.require_fn(entry, 'C03')
+    reach, todo = {entry}, [entry]
+    while todo:
+        x = todo.pop()
+        for y in cg.get(x, ()):
+            if y not in reach:
+                reach.add(y)
+                todo.append(y)
+    tab = {e['field']: e for e in c01.table('c04_field_bounds.json')}
+
+    def interval_at(f, bi, operand):
+        it = cn.Interp(w, f, tab)
+        it.err = set()           # error-reported paths count here
+        it.run()
+        st = it.transfer_prefix(bi, len(f.blocks[bi]['s']))
+        return it.eval_op(st, operand)
+
+    def bound(f, bi, operand, depth=0):
+        iv = interval_at(f, bi, operand)
+        pl = op_place(operand)
+        if depth < 2 and pl is not None and not pl.get('p'):
+            # a plain copy of a parameter: what the callers pass
+            org = origins(f)
+            args = {q[0][1] for q in org.get(pl['l'], ()) if q[0][0] == 'arg' and len(q) == 1}
+            if args and all(q[0][0] == 'arg' and len(q) == 1 for q in org.get(pl['l'], ())) and len(args) == 1:
+                k = args.pop()
+                sites = [(g, bj, t) for (g, bj, t) in c01.callers_of(w, f.path) if not t.get('inlined') and len(t['args']) >= k]
+                if sites:
+                    lo, hi = None, None
+                    for (g, bj, t) in sites:
+                        a, b_ = bound(g, bj, t['args'][k - 1], depth + 1)
+                        lo = a if lo is None else min(lo, a)
+                        hi = b_ if hi is None else max(hi, b_)
+                    return (max(iv[0], lo), min(iv[1], hi))
+        return iv
+    n = 0
+    for p_ in sorted(reach):
+        f = w.fns.get(p_)
+        if f is None or f.crate is not c:
+            continue
+        for bi, t in f.calls():
+            nm = strip_generics(callee_name(t) or '')
+            if not (nm.endswith('::try_from') or nm.endswith('::try_into')) or not t['args']:
+                continue
+            dst_ty = f.crate.tstr(f.local_ty(t['dst']['l'])) if not t['dst'].get('p') else ''
+            tgt = None
+            for ty_ in cn.TYPE_RANGE:
+                if dst_ty.startswith('std::result::Result<%s,' % ty_) or dst_ty.startswith('core::result::Result<%s,' % ty_):
+                    tgt = ty_
+            if tgt is None:
+                continue
+            # is the result unwrapped (a panic on Err)?
+            org = origins(f)
+            panics = False
+            for bj, t2 in f.calls():
+                n2 = strip_generics(callee_name(t2) or '')
+                if n2.rsplit('::', 1)[-1] in ('unwrap', 'expect') and 'Result' in n2 and t2['args']:
+                    a = op_place(t2['args'][0])
+                    if a is not None and any(q[0][0] == 'call' and q[0][1] == bi for q in org.get(a['l'], ())):
+                        panics = True
+            if not panics:
+                continue
+            n += 1
+            lo, hi = bound(f, bi, t['args'][0])
+            mn, mx = cn.TYPE_RANGE[tgt]
+            r.check(lo >= mn and hi <= mx, '%s / %s::try_from(..) is unwrapped' % (f.path, tgt),
+                    'the operand of a conversion to %s that panics on failure can be as large as %s on some path (paths on which an error was already reported included): '
+                    'compiling such a source panics instead of returning the compile error' % (tgt, 'unbounded' if hi >= cn.INF else hi), f.loc(t.get('sp')))
+    r.note('%d unwrapped integer conversions in %d functions reachable from compile()' % (n, len(reach)))
+
+
+def t14(rep, w):
+    """never panics: text taken from the source is converted with str::parse (number literals, escapes) - whether the text is well formed is
+    the scanner's promise, and a promise between two functions is what the next edit breaks. The Err side of every such conversion in code
+    the compiler runs has to stay an ordinary path (a reported error, a default), not an unwrap."""
+    r = rep.rule('T14', 'no result of str::parse / from_str_radix / char::from_u32 on source text is unwrapped in code reachable from compile()', floor=1)
+    c = w.yarel
+    cg = w.callgraph()
+    entry = 'yarel::compiler::compile'
+    reach, todo = {entry}, [entry]
+    while todo:
+        x = todo.pop()
+        for y in cg.get(x, ()):
+            if y not in reach:
+                reach.add(y)
+                todo.append(y)
+    FALLIBLE = ('::parse', '::from_str_radix', '::from_u32', '::from_str', '::from_digit', '::to_digit')
+    for p_ in sorted(reach):
+        f = w.fns.get(p_)
+        if f is None or f.crate is not c:
+            continue
+        sites = [(bi, t) for bi, t in f.calls() if strip_generics(callee_name(t) or '').endswith(FALLIBLE)
+                 and (callee_name(t) or '').startswith(('core::', 'std::', 'alloc::'))]
+        if not sites:
+            continue
+        org = origins(f)
+        for bi, t in sites:
+            bad = []
+            for bj, t2 in f.calls():
+                n2 = strip_generics(callee_name(t2) or '')
+                if n2.rsplit('::', 1)[-1] in ('unwrap', 'expect', 'unwrap_unchecked') and t2['args']:
+                    a = op_place(t2['args'][0])
+                    if a is not None and any(q[0][0] == 'call' and q[0][1] == bi for q in org.get(a['l'], ())):
+                        bad.append(n2.rsplit('::', 1)[-1])
+            what = strip_generics(callee_name(t)).rsplit('::', 1)[-1]
+            r.check(not bad, '%s / %s result' % (f.path, what),
+                    'the result of %s is unwrapped (%s): source text the scanner lets through but the conversion rejects makes the compiler panic instead of '
+                    'reporting a compile error' % (what, ', '.join(sorted(set(bad)))), f.loc(t.get('sp')))
